@@ -22,6 +22,7 @@ CONSTANTS
   KeepRights = {TRUE, FALSE}
   Scrollbars <- MCScrollbars
   Borders = {TRUE, FALSE}
+  Tabstops = {8}
   Patterns <- MCPatternsQ
   Acts = {"move", "pattern"}
 INIT Init
